@@ -95,7 +95,17 @@ def o11_2(tier):
             want_join = len(e) == 2 and cells_at_ends[0] < 3 and cells_at_ends[1] < 3
             ctx.ensure(([ctx.list_of(x) for x in ctx.list_of(out["vertices_to_join"])] == [e]) == want_join and (want_join or ctx.list_of(out["vertices_to_join"]) == []),
                        f"{e} with {cells_at_ends} cells at its ends: queued for contraction iff two points and both ends in fewer than three cells")
-    return [("loop-structure", h)]
+    def h_cells(ctx):
+        # only a cell that lost ALL its vertices is dropped (a cell reduced to two junctions at ne=1 stays)
+        frag = ctx.fragment(GM, "generate_mesh", ["cells_to_remove = []", "for c in cells.keys():"])
+        C = cls(ctx, "forsys.cell", "Cell")
+        V = cls(ctx, "forsys.vertex", "Vertex")
+        vs = [ctx.call(V, 70 + i, 0.0, 0.0) for i in range(4)]
+        sizes = {5: 0, 9: 2, 2: 3, 7: 1, 4: 0}
+        cells = ctx.dict([(cid, ctx.alloc(C, id=cid, vertices=vs[:n])) for cid, n in sizes.items()])
+        out = ctx.run_fragment(GM, frag, dict(cells=cells))
+        ctx.ensure(ctx.list_of(out["cells_to_remove"]) == [cid for cid, n in sizes.items() if n == 0], "cells queued for removal = cells without any vertex left")
+    return [("loop-structure", h), ("empty-cell-removal", h_cells)]
 
 
 @obligation("O11.7", ["C11", "C06", "C09"], [GM + ":join_two_vertices"],
